@@ -123,13 +123,6 @@ Proof.
 Qed.
 
 (* ---- sufficient conditions ---- *)
-(* no segment contains the first character of the separator *)
-Definition headfree (sep : pystr) (segs : list pystr) : bool :=
-  match sep with
-  | [] => false
-  | c :: _ => forallb (fun seg => negb (Nmem c seg)) segs
-  end.
-
 Lemma no_match_before_headfree c sep x rest :
   Nmem c x = false -> no_match_before (c :: sep) x rest = true.
 Proof.
